@@ -29,7 +29,7 @@ func init() {
 }
 
 // A File is a file descriptor
-// (either a real OS fd or an in-memory "inode number")
+// (either a real OS fd or an in-memory descriptor number)
 type File int
 
 func (f File) fd() int {
